@@ -24,9 +24,9 @@ static void h_fill_crc(unsigned long init)
   for (i = 0; i < CRC_MAXLEN; ++i) h_crc_pref[i + 1] = spec_crc_byte(h_crc_pref[i], h_crc_data[i]);
 }
 #define CRC_UPDATE_LOOP_CONTRACT \
-  __CPROVER_assigns(p, self->crc_) \
+  __CPROVER_assigns(p, crc_) \
   __CPROVER_loop_invariant(__CPROVER_same_object(p, start) && start <= p && p <= end) \
-  __CPROVER_loop_invariant(self->crc_ == h_crc_pref[p - start] && self->crc_ <= 0xFFFFul) \
+  __CPROVER_loop_invariant(crc_ == h_crc_pref[p - start] && crc_ <= 0xFFFFul) \
   __CPROVER_decreases(end - p)
 #include "crc_cycle.inc"
 #include "CRC16Base_update.inc"
